@@ -3,8 +3,10 @@ package props
 import (
 	"encoding/json"
 	"fmt"
+	"github.com/jirenius/go-res/store/badgerstore"
 	"math/rand"
 	"sort"
+	"strings"
 	"sync"
 	"time"
 
@@ -525,8 +527,91 @@ func c11Diagnose(k storeKind, history []porcupine.Operation) (sig, what string) 
 	return "C11/not-linearizable:" + k.Impl, fmt.Sprintf("history on store %s has no linearization against the per-id sequential map", k)
 }
 
+// c11Stamp is a value type shaped like time.Time, url.URL or uuid.UUID: MarshalBinary on
+// the value, UnmarshalBinary on the pointer. The store documents that it uses the binary
+// methods only when the type has both; typed with the non-pointer type it has not, so the
+// values are kept as JSON - either way what is written is what is read.
+type c11Stamp struct {
+	U string `json:"u"`
+}
+
+func (s c11Stamp) MarshalBinary() ([]byte, error) { return []byte("bin:" + s.U), nil }
+func (s *c11Stamp) UnmarshalBinary(b []byte) error {
+	s.U = strings.TrimPrefix(string(b), "bin:")
+	return nil
+}
+
+// c11MarshalerType: the map behaviour on a store typed with c11Stamp.
+func c11MarshalerType(c *core.Ctx, k storeKind, ns string) {
+	db, err := sharedBadger()
+	if err != nil {
+		return
+	}
+	st := badgerstore.NewStore(db).SetType(c11Stamp{})
+	if k.Prefix != "" {
+		st.SetPrefix(k.Prefix + ns + "stamp")
+	}
+	id := ns + "-stamp"
+	desc := map[string]interface{}{"store": k, "value_type": "struct with MarshalBinary on the value and UnmarshalBinary on the pointer", "id": id}
+	step := func(what string, f func() (string, error), want string) bool {
+		var got string
+		var err error
+		c.Eval(1)
+		c.Obs("marshaler_type_steps", 1)
+		if pn := try(func() { got, err = f() }); pn != nil {
+			got = fmt.Sprintf("panic: %v", pn)
+		} else if err != nil {
+			got = "error:" + errClass(err)
+		}
+		if got != want {
+			desc["step"], desc["got"], desc["want"] = what, got, want
+			c.Violation("C11/seq-result:badger:marshaler-type:"+what, fmt.Sprintf("store typed with a MarshalBinary-only value type: %s gives %q, the map model says %q", what, got, want), desc)
+			return false
+		}
+		return true
+	}
+	val := func(t interface {
+		Value() (interface{}, error)
+	}) (string, error) {
+		v, err := t.Value()
+		if err != nil {
+			return "", err
+		}
+		s, ok := v.(c11Stamp)
+		if !ok {
+			return fmt.Sprintf("%T", v), nil
+		}
+		return s.U, nil
+	}
+	wt := st.Write(id)
+	ok := step("create", func() (string, error) { return "ok", wt.Create(c11Stamp{U: "a"}) }, "ok") &&
+		step("value-in-write-txn", func() (string, error) { return val(wt) }, "a") &&
+		step("exists-in-write-txn", func() (string, error) { return fmt.Sprint(wt.Exists()), nil }, "true") &&
+		step("update", func() (string, error) { return "ok", wt.Update(c11Stamp{U: "b"}) }, "ok") &&
+		step("value-after-update", func() (string, error) { return val(wt) }, "b")
+	wt.Close()
+	if !ok {
+		return
+	}
+	rt := st.Read(id)
+	ok = step("value-in-read-txn", func() (string, error) { return val(rt) }, "b") &&
+		step("exists-in-read-txn", func() (string, error) { return fmt.Sprint(rt.Exists()), nil }, "true")
+	rt.Close()
+	if !ok {
+		return
+	}
+	wt = st.Write(id)
+	_ = step("duplicate-create", func() (string, error) { return "ok", wt.Create(c11Stamp{U: "c"}) }, "error:duplicate") &&
+		step("delete", func() (string, error) { return "ok", wt.Delete() }, "ok") &&
+		step("value-after-delete", func() (string, error) { return val(wt) }, "error:notfound")
+	wt.Close()
+}
+
 // c11Sequential: long single-goroutine history against a reference map.
 func c11Sequential(c *core.Ctx, k storeKind, ns string) bool {
+	if k.Impl == "badger" && k.Typed && !k.Bare {
+		c11MarshalerType(c, k, ns)
+	}
 	st, bst, err := newStore(k, ns+"s")
 	if err != nil {
 		c.Inconclusive("store: " + err.Error())
